@@ -16,6 +16,10 @@ import (
 	"strings"
 )
 
+// vTsBase: first timestamp of generated histories (seconds). 1000 by default; the clock-shift comparison
+// anchors it at the real time so that code reading the wall clock sees plausible distances.
+var vTsBase int64 = 1000
+
 const vCapSecretHex = "736563726574" // "secret"
 
 type vView struct {
@@ -520,7 +524,14 @@ func (g *vGen) next(step int, st map[string]interface{}) *vEntry {
 		case 7, 8, 9:
 			masks := []string{"*!*@a1", "*!*@a2", "bob!*@*", "*!u1@*", "*alice*", "*!*@robust/0x2", "*!*@robust/0x3",
 				"BOB!*@*", "*!*@A1", "*!*@h[x]", "*!*@H{X}", "b[ob]!*@*", "B{OB}!*@*"} // incl. masks equal under IRC case mapping
-			e.Data = fmt.Sprintf("MODE %s %s %s", c, pick(r, []string{"+b", "-b"}), pick(r, masks))
+			m := pick(r, masks)
+			// like nicknames and channels: prefer an existing mask in another spelling
+			if cc, ok := v.chans[strings.ToLower(c)]; ok {
+				if bans, ok := cc["bans"].([]interface{}); ok && len(bans) > 0 && r.Intn(2) == 0 {
+					m = variant(r, bans[r.Intn(len(bans))].(map[string]interface{})["m"].(string))
+				}
+			}
+			e.Data = fmt.Sprintf("MODE %s %s %s", c, pick(r, []string{"+b", "+b", "-b"}), m)
 		case 10:
 			e.Data = fmt.Sprintf("MODE %s +b", c)
 		case 11:
@@ -726,7 +737,7 @@ func vVerifyMirror(tok string, ts int64) bool {
 }
 
 func vGenHistory(rng *rand.Rand, length int, wild int) func(step int, st map[string]interface{}) *vEntry {
-	g := &vGen{r: rng, ts: 1000 + int64(rng.Intn(100)), length: length, wild: wild}
+	g := &vGen{r: rng, ts: vTsBase + int64(rng.Intn(100)), length: length, wild: wild}
 	return func(step int, st map[string]interface{}) *vEntry {
 		if step > length {
 			return nil
